@@ -36,6 +36,9 @@
 #include "quill/core/ThreadContextManager.h"
 #include "quill/core/TimeUtilities.h"
 #include "quill/core/UnboundedSPSCQueue.h"
+#if defined(QUILL_VERIF)
+  #include "quill/core/VerifHooks.h"
+#endif
 #include "quill/sinks/Sink.h"
 
 #include "quill/bundled/fmt/base.h"
@@ -273,8 +276,15 @@ private:
    */
   QUILL_ATTRIBUTE_HOT void _poll()
   {
+#if defined(QUILL_VERIF)
+    verif::hit(verif::BW_POLL_BEGIN, this, 0);
+#endif
     // load all contexts locally
     _update_active_thread_contexts_cache();
+
+#if defined(QUILL_VERIF)
+    verif::hit(verif::BW_AFTER_CACHE_REFRESH, this, 0);
+#endif
 
     // Read all frontend queues and cache the log statements and the metadata as TransitEvents
     size_t const cached_transit_events_count = _populate_transit_events_from_frontend_queues();
@@ -297,12 +307,18 @@ private:
           // that have not yet been cached in the transit event buffer. Logging only the cached
           // messages can result in out-of-order log entries, as messages with larger timestamps
           // in the queue might be missed.
+#if defined(QUILL_VERIF)
+          verif::hit(verif::BW_BATCH_NEXT, this, 0);
+#endif
         }
       }
     }
     else
     {
       // No cached transit events to process, minimal thread workload.
+#if defined(QUILL_VERIF)
+      verif::hit(verif::BW_IDLE_ENTER, this, 0);
+#endif
 
       // force flush all remaining messages
       _flush_and_run_active_sinks(true, _options.sink_min_flush_interval);
@@ -310,6 +326,9 @@ private:
       // check for any dropped messages / blocked threads
       _check_failure_counter(_options.error_notifier);
 
+#if defined(QUILL_VERIF)
+      verif::hit(verif::BW_AFTER_FAILURE_CHECK, this, 0);
+#endif
       // This is useful when BackendTscClock is used to keep it up to date
       _resync_rdtsc_clock();
 
@@ -317,7 +336,14 @@ private:
       bool const queues_and_events_empty = _check_frontend_queues_and_cached_transit_events_empty();
       if (queues_and_events_empty)
       {
+#if defined(QUILL_VERIF)
+        verif::hit(verif::BW_IDLE_ALL_EMPTY, this, 0);
+        verif::hit(verif::BW_BEFORE_CLEANUP_CTX, this, 0);
+#endif
         _cleanup_invalidated_thread_contexts();
+#if defined(QUILL_VERIF)
+        verif::hit(verif::BW_BEFORE_CLEANUP_LOGGERS, this, 0);
+#endif
         _cleanup_invalidated_loggers();
         _try_shrink_empty_transit_event_buffers();
 
@@ -392,6 +418,9 @@ private:
    */
   QUILL_ATTRIBUTE_COLD void _exit()
   {
+#if defined(QUILL_VERIF)
+    verif::hit(verif::BW_EXIT_ENTER, this, 0);
+#endif
     while (true)
     {
       bool const queues_and_events_empty = (!_options.wait_for_queues_to_empty_before_exit) ||
@@ -421,6 +450,9 @@ private:
 
     _cleanup_invalidated_thread_contexts();
     _cleanup_invalidated_loggers();
+#if defined(QUILL_VERIF)
+    verif::hit(verif::BW_EXIT_DONE, this, 0);
+#endif
   }
 
   /**
@@ -470,6 +502,9 @@ private:
     size_t const queue_capacity = frontend_queue.capacity();
     size_t total_bytes_read{0};
 
+#if defined(QUILL_VERIF)
+    verif::hit(verif::BW_BEFORE_READ_QUEUE, thread_context, 0);
+#endif
     do
     {
       std::byte* read_pos;
@@ -502,6 +537,9 @@ private:
       auto const bytes_read = static_cast<size_t>(read_pos - read_begin);
       frontend_queue.finish_read(bytes_read);
       total_bytes_read += bytes_read;
+#if defined(QUILL_VERIF)
+      verif::hit(verif::BW_AFTER_DECODE_ONE, thread_context, bytes_read);
+#endif
       // Reads a maximum of one full frontend queue or the transit events' hard limit to prevent
       // getting stuck on the same producer.
     } while ((total_bytes_read < queue_capacity) &&
@@ -515,6 +553,9 @@ private:
       frontend_queue.commit_read();
     }
 
+#if defined(QUILL_VERIF)
+    verif::hit(verif::BW_AFTER_READ_QUEUE, thread_context, total_bytes_read);
+#endif
     return thread_context->_transit_event_buffer->size();
   }
 
@@ -757,6 +798,9 @@ private:
 
     std::atomic<bool>* flush_flag{nullptr};
 
+#if defined(QUILL_VERIF)
+    verif::hit(verif::BW_BEFORE_PROCESS_EVENT, thread_context, transit_event->timestamp);
+#endif
     QUILL_TRY { _process_transit_event(*thread_context, *transit_event, flush_flag); }
 #if !defined(QUILL_NO_EXCEPTIONS)
     QUILL_CATCH(std::exception const& e) { _options.error_notifier(e.what()); }
@@ -773,6 +817,9 @@ private:
     }
 
     thread_context->_transit_event_buffer->pop_front();
+#if defined(QUILL_VERIF)
+    verif::hit(verif::BW_AFTER_POP, thread_context, 0);
+#endif
 
     if (flush_flag)
     {
